@@ -99,6 +99,44 @@ def witnesses():
     ]
 
 
+def corners():
+    """Fixed corner scenarios run on every seed: 2- and 3-level package trees x the three sqlalchemy emit kinds x
+    --emit-sqlalchemy-submodule on/off x --recursive on/off x output directory pre-existing or not (real runs; every file
+    written, sqlalchemy_mod/* included, goes through the generated-file oracle)."""
+    def files(levels):
+        f = {
+            "exposed/__init__.py": '"""exposed"""\nfrom exposed.alpha import Alpha, alpha_fn\n\n__all__ = ["Alpha", "alpha_fn"]\n',
+            "exposed/alpha.py": '"""alpha"""\n\n\n' + _CLS % ("Alpha", "Alpha") + '\n\n' + _FN % ("alpha_fn", "alpha_fn") + '\n\n__all__ = ["Alpha", "alpha_fn"]\n',
+            "exposed/models/__init__.py": '"""models"""\nfrom exposed.models.user import User\n\n__all__ = ["User"]\n',
+            "exposed/models/user.py": '"""user"""\n\n\n' + _CLS % ("User", "User") + '\n\n__all__ = ["User"]\n',
+        }
+        if levels == 3:
+            f["exposed/models/audit/__init__.py"] = '"""audit"""\nfrom exposed.models.audit.log import Log, log_fn\n\n__all__ = ["Log", "log_fn"]\n'
+            f["exposed/models/audit/log.py"] = '"""log"""\n\n\n' + _CLS % ("Log", "Log") + '\n\n' + _FN % ("log_fn", "log_fn") + '\n\n__all__ = ["Log", "log_fn"]\n'
+        return f
+
+    res = []
+    for levels in (2, 3):
+        pk = ["exposed", "exposed.models"] + (["exposed.models.audit"] if levels == 3 else [])
+        md = ["exposed.alpha", "exposed.models.user"] + (["exposed.models.audit.log"] if levels == 3 else [])
+        sy = {"exposed.alpha": ["Alpha", "alpha_fn"], "exposed.models.user": ["User"]}
+        if levels == 3:
+            sy["exposed.models.audit.log"] = ["Log", "log_fn"]
+        tree = _tree("exposed", files(levels), pk, md, sy)
+        for emit in ("sqlalchemy", "sqlalchemy_table", "sqlalchemy_hybrid"):
+            for sqlsub in (True, False):
+                for recursive in (True, False):
+                    for pre in ("absent", "empty"):
+                        res.append({"idx": -100 - len(res), "tree": tree, "pre": {"kind": pre},
+                                    "runs": [{"cfg": _cfg("exposed", out_rel="out/exposed_out", emit=[emit], sqlsub=sqlsub, recursive=recursive), "dry": False}]})
+        # the submodule already present (second real run over the first one's output) and a dry run over it
+        for emit in ("sqlalchemy_table", "sqlalchemy_hybrid"):
+            c = _cfg("exposed", out_rel="out/exposed_out", emit=[emit], sqlsub=True, recursive=True)
+            res.append({"idx": -100 - len(res), "tree": tree, "pre": {"kind": "absent"},
+                        "runs": [{"cfg": c, "dry": False}, {"cfg": c, "dry": False}, {"cfg": c, "dry": True}]})
+    return res
+
+
 def excluded_units(tree: dict, cfg: dict):
     """Modules the statement calls excluded, for lists made of fully-qualified names of the tree only (else None).
     Conservative reading: a blacklist entry excludes exactly that module; a whitelist excludes a package only when
@@ -145,12 +183,13 @@ def diff_snap(a: dict, b: dict):
 
 
 def check_generated_file(path: str):
-    """valid Python whose __all__ names symbols it defines or imports → None, else a short reason"""
+    """valid Python (it compiles) whose __all__ names symbols it defines or imports → None, else a short reason"""
     try:
         src = open(path).read()
         mod = ast.parse(src)
-    except SyntaxError as e:
-        return "syntax-error: %s" % (e.msg,)
+        compile(src, path, "exec", dont_inherit=True)
+    except (SyntaxError, ValueError) as e:
+        return "syntax-error: %s" % (getattr(e, "msg", None) or e,)
     known = set()
     alls = []
     for st in mod.body:
@@ -518,11 +557,15 @@ def run(chk: core.Check) -> int:
             if dw:
                 chk.oblige("correspondence on the witness of %s" % fid, "correspondence", False, "model and code differ on the witness")
         chk.coverage["witnesses"] = [w[0] for w in wit]
+        cor = corners()
+        n0, d0 = evaluate(chk, cor, "fixed corners")
+        chk.coverage["fixed_corner_scenarios"] = len(cor)
         n1, d1 = evaluate(chk, scenarios, "generated stream")
         n2, d2 = evaluate(chk, directed, "directed stream")
+        n1, d1 = n1 + n0, d1 + d0
         chk.coverage["real_runs"] = n1 + n2
         chk.coverage["real_run_seconds"] = round(time.time() - t0, 1)
-        chk.oblige("correspondence: observed exmod effects (audit events, prints, exception, final files) = Exmod.trace on %d runs of %d scenarios" % (n1 + n2, len(scenarios) + len(directed)),
+        chk.oblige("correspondence: observed exmod effects (audit events, prints, exception, final files) = Exmod.trace on %d runs of %d scenarios" % (n1 + n2, len(scenarios) + len(directed) + len(cor)),
                    "correspondence", d1 + d2 == 0, "%d disagreements" % (d1 + d2))
     finally:
         if private is not None:
